@@ -55,7 +55,7 @@ pub const CHECK_NAMES: [&str; NCHECK] = [
   "C01: emitted bytes equal the derived template", "C01: template falls through to its own end, no model fault",
   "C01: host stack balanced, rbp/rsp preserved", "C01: helper called with the MemoryAreas pointer",
   "C01: AF", "C01: BC", "C01: DE", "C01: HL", "C01: SP", "C01: PC", "C02: cycles", "C01: status",
-  "C01: same number of bus accesses", "C01: same bus access in the same order", "C01: same bus writes in the same order" ];
+  "C01: same number of bus accesses", "C01: same bus access in the same order", "C01,C18: same bus writes in the same order" ];
 
 pub struct Outcome { pub ok: [bool; NCHECK], pub fault: u32 }
 
@@ -277,7 +277,7 @@ mod harnesses {
         4 => assert!($o.ok[4], "C01: AF"), 5 => assert!($o.ok[5], "C01: BC"), 6 => assert!($o.ok[6], "C01: DE"), 7 => assert!($o.ok[7], "C01: HL"),
         8 => assert!($o.ok[8], "C01: SP"), 9 => assert!($o.ok[9], "C01: PC"), 10 => assert!($o.ok[10], "C02: cycles"), 11 => assert!($o.ok[11], "C01: status"),
         // (checks 12/13 compare the read traces too; stronger than the property, reported natively only)
-        14 => assert!($o.ok[14], "C01: same bus writes in the same order"),
+        14 => assert!($o.ok[14], "C01,C18: same bus writes in the same order"),
         _ => { kani::cover!(true, "reachable"); },
       }
     }};
